@@ -49,6 +49,35 @@ def Ctor.sharedMonc : Ctor → Bool
   | .newModel | .newNodeModel => true
   | _ => false
 
+/-! ### round 5: the caller's options on their way to the nodes
+
+An instance is built by a chain of constructor calls; every hop receives `opts ...Option` and has to hand it on
+(`f(…, opts...)`) for the nodes to be configured with it (NewNode → newOptions(opts...)).  `table` is what the
+extractor reads at every hop (`Extracted.C06.optsForwarding`: per function the class of the options argument of
+each call of the next constructor). -/
+
+/-- the hops between the public constructor and `newOptions`. -/
+def hops : Ctor → List String
+  | .newConn => ["sqlc.NewConn", "cache.New", "cache.NewNode"]
+  | .newNodeConn => ["sqlc.NewNodeConn", "cache.NewNode"]
+  | .newConnWithCache _ => ["cache.New", "cache.NewNode"]          -- the caller built the cache with cache.New
+  | .newModel => ["monc.NewModel", "cache.New", "cache.NewNode"]
+  | .newNodeModel => ["monc.NewNodeModel", "cache.NewNode"]
+  | .newModelWithCache _ => ["cache.New", "cache.NewNode"]
+
+/-- a hop forwards iff EVERY call of the next constructor in it passes the function's own `opts` parameter, spread
+(the flattened classification `param:opts...`; a call without the argument is classified `absent`). -/
+def hopForwards (table : List (String × List String)) (hop : String) : Bool :=
+  match table.find? (·.1 = hop) with
+  | some (_, cls) => cls ≠ [] && cls.length % 2 = 0 &&
+      (List.range (cls.length / 2)).all fun i => cls[2 * i]? = some "param" && cls[2 * i + 1]? = some "opts..."
+  | none => false
+
+/-- the options the nodes of an instance are configured with: the caller's, unless a hop drops them (then the
+node runs `newOptions()` = `dflt`). -/
+def optsAtNode {O : Type} (dflt : O) (table : List (String × List String)) (c : Ctor) (o : O) : O :=
+  if (hops c).all (hopForwards table) then o else dflt
+
 /-! ### the flight groups of all barriers, side by side -/
 
 variable {α : Type}
